@@ -296,12 +296,9 @@ impl<'d> PreparedFields<'d> {
             }
         }
 
-        // So we don't write a spurious end boundary
-        if text_data.is_empty() && streams.is_empty() {
-            boundary = String::new();
-        } else {
-            boundary.push_str("--");
-        }
+        // The closing delimiter is always written, also for a form without fields: `boundary()`
+        // is derived from it and an empty multipart body still needs its terminator.
+        boundary.push_str("--");
 
         content_len += boundary.len() as u64;
 
